@@ -30,6 +30,7 @@ struct Held {
 }
 
 pub fn run_c20(bytes: &[u8], tier: Tier) -> Outcome {
+    crate::engine::set_engine_hash_seed(bytes);
     let mut ch = Choices::new(bytes);
     let steps = if tier == Tier::Quick { 40 } else { 120 };
     let nested = ch.flag(1, 3);
